@@ -596,6 +596,9 @@ def check(ctx):
     cases = []
     for e in evs:
         cases.append((e, 1))
+        # idle devices: every counter 0 (a freshly booted guest) -- listed all the same
+        if e["inp"]["kind"] in ("net", "disk") and (thorough or rnd.random() < 0.25):
+            cases.append((e, 0))
         if thorough:
             cases += [(e, s) for s in SCALES[1:]]
         elif rnd.random() < 0.5:
